@@ -16,6 +16,7 @@ package proto
 
 import (
 	"bytes"
+	"fmt"
 	"strconv"
 )
 
@@ -48,14 +49,18 @@ func newArrayWithParser(parser *Parser) (*Array, error) {
 		return NewArray(), nil
 	}
 
-	// Gets all array messages
-	msgs := make([]*Message, arraySize)
+	// Gets all array messages. The slice grows with the elements actually received, so a declared
+	// size is never trusted for allocation, and a stream that ends inside the array is an error.
+	msgs := []*Message{}
 	for n := 0; n < arraySize; n++ {
 		msg, err := parser.Next()
 		if err != nil {
 			return nil, err
 		}
-		msgs[n] = msg
+		if msg == nil {
+			return nil, fmt.Errorf(errorShortArray, n, arraySize)
+		}
+		msgs = append(msgs, msg)
 	}
 	array := &Array{
 		index: 0,
